@@ -182,8 +182,9 @@ impl PyprojectTomlParser {
                 // Remove only the outer quotes from TOML string
                 // TOML strings are either "..." or '...' (literal string)
                 let trimmed = text.trim();
-                let dep_str = if (trimmed.starts_with('"') && trimmed.ends_with('"'))
-                    || (trimmed.starts_with('\'') && trimmed.ends_with('\''))
+                let dep_str = if trimmed.len() >= 2
+                    && ((trimmed.starts_with('"') && trimmed.ends_with('"'))
+                        || (trimmed.starts_with('\'') && trimmed.ends_with('\'')))
                 {
                     &trimmed[1..trimmed.len() - 1]
                 } else {
